@@ -50,7 +50,7 @@ PROPERTIES["C12"] = dict(
     ],
 )
 
-PIPE_FILES = ["pipeline/zz_verif_pipe.go", "pipeline/zz_verif_p08.go", "pipeline/zz_verif_p01.go", "pipeline/zz_verif_p01b.go", "pipeline/zz_verif_p01x.go", "pipeline/zz_verif_p01r.go", "pipeline/zz_verif_p13.go", "pipeline/zz_verif_p10.go", "pipeline/zz_verif_p07.go", "config::config/zz_verif_export.go", "annotation::annotation/zz_verif_export.go", "assertion/global::global/zz_verif_export.go"]
+PIPE_FILES = ["pipeline/zz_verif_pipe.go", "pipeline/zz_verif_p08.go", "pipeline/zz_verif_p01.go", "pipeline/zz_verif_p01b.go", "pipeline/zz_verif_p01x.go", "pipeline/zz_verif_p01r.go", "pipeline/zz_verif_p13.go", "pipeline/zz_verif_p10.go", "pipeline/zz_verif_p09.go", "pipeline/zz_verif_p07.go", "config::config/zz_verif_export.go", "annotation::annotation/zz_verif_export.go", "assertion/global::global/zz_verif_export.go"]
 INFER_FILES = ["inference/zz_verif_c05.go", "inference/zz_verif_c05l2.go", "inference/zz_verif_c06.go", "inference/zz_verif_c04.go", "inference/zz_verif_c15.go", "inference/zz_verif_c15m.go", "inference/zz_verif_c08.go", "inference/zz_verif_registry.go",
                "annotation::annotation/zz_verif_export.go"]
 
@@ -523,3 +523,10 @@ PROPERTIES["C10"]["explanation"] += (" Source level (P10): " + PIPE_EXPL + "the 
     "'event possible => reported', 'all dereferences nil-checked and no nonnil annotation => clean', and 'diagnostics only on dereference or flow-in lines' are decided per program.")
 PROPERTIES["C10"]["bounds"]["quick"] += "; source level: 910 programs (5 annotations x call first/last x one more statement)"
 PROPERTIES["C10"]["bounds"]["thorough"] += "; source level: 11830 programs (two more statements)"
+
+PROPERTIES["C09"]["runs"] += [dict(pkg="accumulation", files=PIPE_FILES, entry="Harness_P09", args=dict(sample_every=13, max_samples=24))]
+PROPERTIES["C09"]["explanation"] += (" Source level (P09): " + PIPE_EXPL + "plus the REAL affiliation analyzer. An interface with a getter and a setter, a pointer-receiver and a value-receiver implementation (each returning nil or not, "
+    "dereferencing its parameter unchecked or checked), a use() through the interface (unchecked / checked dereference of the result, nil / non-nil argument) and four conversion shapes (assignment, argument, either in a branch, both); "
+    "single package and split (interface and use() in a dependency). The dispatch is evaluated over the opaque flag: panic possible => reported; well-behaved implementations => clean.")
+PROPERTIES["C09"]["bounds"]["quick"] += "; source level: all 512 programs of the P09 family (256 single-package, 256 split)"
+PROPERTIES["C09"]["outside"] = [o for o in PROPERTIES["C09"]["outside"]] + ["source level: more than two implementations or one interface, embedded structs, conversions by return / composite literal / append"]
